@@ -18,13 +18,22 @@ def main():
     meta = json.load(open(os.path.join(seed, "meta.json")))
     res = {"seed": seed, "property": meta.get("property"), "verify": {}, "detect": {}}
     wt = "/tmp/wt_seedverify_%d" % os.getpid()
-    sh("git -C /repo worktree remove --force %s" % wt)
-    rc, o = sh("git -C /repo worktree add -q --detach %s HEAD" % wt)
+    prev = os.path.join(out, "result.json")
+    detect_only = os.environ.get("SEED_DETECT_ONLY") and os.path.exists(prev)
+    if detect_only:
+        old = json.load(open(prev))
+        res["verify"] = old["verify"]
+        res["detect_before"] = old.get("detect_before", old["detect"])
+    else:
+        sh("git -C /repo worktree remove --force %s" % wt)
+        rc, o = sh("git -C /repo worktree add -q --detach %s HEAD" % wt)
     env = dict(os.environ, CARGO_NET_OFFLINE="true", CARGO_TARGET_DIR="/tmp/seed_target_verify" + os.environ.get("SEEDW", ""))
     try:
         patch = os.path.abspath(os.path.join(seed, "patch.diff"))
         demo = os.path.abspath(os.path.join(seed, "demo.patch"))
-        rc, o = sh("git apply %s" % patch, cwd=wt); res["verify"]["patch_applies"] = (rc == 0)
+        rc = 1
+        if not detect_only:
+            rc, o = sh("git apply %s" % patch, cwd=wt); res["verify"]["patch_applies"] = (rc == 0)
         if rc == 0:
             rc, o = sh("cargo test --offline 2>&1 | tail -5", cwd=wt, env=env)
             res["verify"]["suite_with_patch"] = o.strip().split("\n")[-3:]
@@ -38,7 +47,8 @@ def main():
             res["verify"]["demo_passes_without_patch"] = (" 0 failed" in o and "passed" in o)
             res["verify"]["without_patch_out"] = o.strip().split("\n")[-2:]
     finally:
-        sh("git -C /repo worktree remove --force %s" % wt)
+        if not detect_only:
+            sh("git -C /repo worktree remove --force %s" % wt)
     # detection
     wt2 = "/tmp/wt_seeddetect_%d" % os.getpid()
     sh("git -C /repo worktree remove --force %s" % wt2)
